@@ -39,6 +39,8 @@ def materialise(cfg, lay, path):
     num = str(cfg["nout"]).zfill(5)
     d = os.path.join(path, "output_" + num)
     os.makedirs(d)
+    # an older (empty) output next to it: nout = -1 must pick the most recent one
+    os.makedirs(os.path.join(path, "output_00000"), exist_ok=True)
     ud, ul, ut = cfg["units"]
     with open(os.path.join(d, f"info_{num}.txt"), "w") as f:
         f.write(f"ncpu        = {cfg['ncpu']:10d}\nndim        = {cfg['ndim']:10d}\nlevelmin    = {1:10d}\nlevelmax    = {cfg['levelmax']:10d}\n")
